@@ -78,6 +78,14 @@ struct ArenaStatistics {
   //! \}
 };
 
+#if defined(ASMJIT_VERIF)
+// Verification hook (H1, off unless a harness installs it): consulted at the top of every arena allocation entry
+// point. When it returns true the request fails (returns nullptr) exactly as if the underlying malloc had failed.
+// `site`: 0 = alloc_oneshot (inline), 1 = _alloc_oneshot (block exhausted), 2 = _alloc_oneshot_zeroed,
+// 3 = _alloc_reusable, 4 = _alloc_reusable_zeroed.
+extern "C" ASMJIT_API bool (*asmjit_verif_arena_fail)(size_t size, const void* arena, int site);
+#endif
+
 //! Arena allocator is an incremental memory allocator that allocates memory by simply incrementing a pointer. It
 //! allocates blocks of memory by using C's `malloc()`, but divides these blocks into smaller segments requested by
 //! calling `Arena::alloc()` and friends.
@@ -316,6 +324,12 @@ public:
   [[nodiscard]]
   ASMJIT_INLINE T* alloc_oneshot(size_t size) noexcept {
     ASMJIT_ASSERT(Support::is_aligned(size, kAlignment));
+
+#if defined(ASMJIT_VERIF)
+    if (asmjit_verif_arena_fail && asmjit_verif_arena_fail(size, this, 0)) {
+      return nullptr;
+    }
+#endif
 
 #if defined(__GNUC__)
     // We can optimize this function a little bit if we know that `size` is relatively small - which would mean
